@@ -126,6 +126,17 @@ func runTwinConcurrent(t *testing.T, ch *sim.Choices, gen *sim.Stream, spec *twi
 		if rej, _ := sim.CheckChanHistory(hN); rej != nil {
 			panic(sim.HarnessFault{Msg: fmt.Sprintf("channel model rejects the history produced by compiled Go (%s): %s\n%v", spec.Name, rej.Error(), nat.summary(200))})
 		}
+		if mode == 1 {
+			// statement-level yields: the step-synchronous model does not apply; check
+			// conservation over the per-task histories instead
+			if key, detail := checkConservation(itp); key != "" {
+				o.fail("conservation", normKey(spec.Name, key), "the interpreted history breaks a conservation law of channels: "+detail+"\n"+joinLines(itp.summary(200)))
+				return
+			}
+			if key, detail := checkConservation(nat); key != "" {
+				panic(sim.HarnessFault{Msg: "conservation check rejects compiled Go: " + key + " " + detail})
+			}
+		}
 		if mode == 0 {
 			hI := &sim.ChanHistory{Released: itp.Released, Logs: itp.Logs, Blocked: itp.blockedSet()}
 			rej, st := sim.CheckChanHistory(hI)
@@ -214,4 +225,118 @@ func selectPicks(r *concRun) uint64 {
 		}
 	}
 	return h
+}
+
+// checkConservation: every value received was sent on that channel and is received at most
+// once; ok == false is only seen on a channel that was closed; a task never completes an
+// operation it did not declare. (Values are unique by construction: task*1000+seq.)
+func checkConservation(r *concRun) (key, detail string) {
+	sent := map[string]bool{}   // "cid v"
+	closed := map[string]bool{} // cid
+	type rcv struct{ task, cid, v, ok string }
+	var recvs []rcv
+	for task, log := range r.Logs {
+		var pre []string
+		for _, e := range log {
+			f := strings.Fields(stripStamp(e))
+			if len(f) < 2 {
+				continue
+			}
+			switch f[0] {
+			case "pre":
+				pre = f
+			case "post":
+				if pre == nil || pre[1] != f[1] {
+					return "completion-without-declaration", fmt.Sprintf("task %s: %q", task, e)
+				}
+				switch f[1] {
+				case "send":
+					sent[pre[2]+" "+pre[3]] = true
+				case "close":
+					closed[pre[2]] = true
+				case "recv":
+					recvs = append(recvs, rcv{task, f[2], f[3], f[4]})
+				case "sel":
+					// locate the chosen case in the declaration
+					idx := atoiSafe(f[2])
+					i, k := 2, 0
+					for i < len(pre) {
+						switch pre[i] {
+						case "r":
+							if k == idx && len(f) >= 5 {
+								recvs = append(recvs, rcv{task, pre[i+1], f[3], f[4]})
+							}
+							i += 2
+						case "s":
+							if k == idx {
+								sent[pre[i+1]+" "+pre[i+2]] = true
+							}
+							i += 3
+						default:
+							i++
+						}
+						k++
+					}
+				}
+				pre = nil
+			}
+		}
+		// a declared operation that never completed (blocked at the end) may still have
+		// handed its value over: a blocked sender's value can be received by someone else
+		if pre != nil {
+			switch pre[1] {
+			case "send":
+				sent[pre[2]+" "+pre[3]] = true
+			case "sel":
+				for i := 2; i < len(pre); {
+					switch pre[i] {
+					case "r":
+						i += 2
+					case "s":
+						sent[pre[i+1]+" "+pre[i+2]] = true
+						i += 3
+					default:
+						i++
+					}
+				}
+			case "close":
+				closed[pre[2]] = true
+			}
+		}
+	}
+	seen := map[string]string{}
+	for _, x := range recvs {
+		switch x.ok {
+		case "false":
+			if !closed[x.cid] {
+				return "recv-not-ok-on-open-channel", fmt.Sprintf("task %s received ok=false on channel %s, which is never closed", x.task, x.cid)
+			}
+		case "true", "_":
+			if x.v == "_" {
+				continue
+			}
+			if x.ok == "_" && x.v == "0" && closed[x.cid] {
+				continue // zero value from a closed channel, ok not bound
+			}
+			if !sent[x.cid+" "+x.v] {
+				return "received-value-never-sent", fmt.Sprintf("task %s received %s on channel %s, which nobody sent there", x.task, x.v, x.cid)
+			}
+			if prev, dup := seen[x.cid+" "+x.v]; dup {
+				return "value-received-twice", fmt.Sprintf("value %s on channel %s was received by %s and by %s", x.v, x.cid, prev, x.task)
+			}
+			seen[x.cid+" "+x.v] = x.task
+		}
+	}
+	return "", ""
+}
+
+func atoiSafe(s string) int {
+	n := 0
+	for i := 0; i < len(s); i++ {
+		if s[i] < '0' || s[i] > '9' {
+			return -1
+		}
+		n = n*10 + int(s[i]-'0')
+	}
+	return n
 }
